@@ -18,7 +18,7 @@ TECHNIQUE = 'exhaustive enumeration of a small name language through the real co
 RULE = ('(a) all names up to the bound; (b) all 7,225 pairs in one file; (c) random unicode names; non-trivial = name containing a quote or a '
         'slash or empty; distinct = the name pair')
 ASSUMPTIONS = ['names contain no lone surrogates (not encodable as UTF-8)']
-REQUIRED = ['memmap_files', 'reused_writer_objects', 'implied_group_lookups', 'codec_roundtrips', 'injectivity_pairs', 'end_to_end_lookups', 'unicode_names', 'lazy_lookups']
+REQUIRED = ['concat_ambiguity_files', 'file_chunk_lookups', 'memmap_files', 'reused_writer_objects', 'implied_group_lookups', 'codec_roundtrips', 'injectivity_pairs', 'end_to_end_lookups', 'unicode_names', 'lazy_lookups']
 EXHAUSTIVE = {'quick': False, 'thorough': False}
 ALPHA = ["'", '/', ' ', 'a']
 
@@ -173,6 +173,21 @@ def check_identity(ctx, data, pairs, ids, label, group_props=True):
                 grp = tf[g]
                 if grp.name != g or grp.path != M.qpath(g) or (group_props and grp.properties.get('gname') != g):
                     ctx.violation('%s/group-identity' % label, {'mode': mode, 'group': g, 'name': grp.name, 'path': grp.path, 'prop': grp.properties.get('gname')})
+            if mode == 'lazy' and len(pairs) <= 2000:
+                # the file-level chunk stream must hand every channel ITS data under ITS name
+                seen = {}
+                for chunk in tf.data_chunks():
+                    for (g, c), i in ids.items():
+                        ctx.count('file_chunk_lookups')
+                        cc = chunk[g][c]
+                        vals = cc[:]
+                        if len(vals):
+                            seen.setdefault((g, c), []).extend(int(x) for x in vals)
+                        if cc.name != c:
+                            ctx.violation('%s/file-chunk-name' % label, {'pair': (g, c), 'name': cc.name})
+                wrong = [(k, v) for k, v in ((k, seen.get(k)) for k in ids) if v != [ids[k]]]
+                if wrong:
+                    ctx.violation('%s/file-chunk-stream-confuses-or-loses-channels' % label, {'examples': wrong[:4]})
         finally:
             tf.close()
             if mm:
@@ -193,6 +208,41 @@ def e2e_groups(case, ctx):
     write_read(ctx, pairs, 'group-block-file')
     write_read(ctx, [(g, c) for g in gs for c in W3[::7]], 'reused-object-file', reuse=True)
     implied(ctx, [(g, c) for g in gs for c in W3[::5]])
+    concat_ambiguity(ctx, [(gs[0], gs[1 % len(gs)], gs[2 % len(gs)]), ('p', 'q', 'r'), (gs[-1], 'a', gs[0])])
+
+
+def concat_ambiguity(ctx, names):
+    """Object lists whose concatenated path strings coincide although the objects differ:
+    segment 1 = groups p, q, r; segment 2 = group p and channel q/r (with data).  Built with the independent encoder."""
+    for p_, q_, r_ in names:
+        s1 = M.Seg()
+        s1.listing = [(M.qpath(x), 'nodata', None) for x in (p_, q_, r_)]
+        s1.active = [(M.qpath(x), False, None) for x in (p_, q_, r_)]
+        s2 = M.Seg()
+        chan = M.qpath(q_, r_)
+        s2.listing = [(M.qpath(p_), 'nodata', None), (chan, 'full', ('i32', 2, None))]
+        s2.active = [(M.qpath(p_), False, None), (chan, True, ('i32', 2, None))]
+        s2.chunks = [{chan: np.array([11, 22], dtype='i4')}, {chan: np.array([33, 44], dtype='i4')}]
+        s3 = M.Seg()
+        s3.has_meta, s3.new_obj_list = False, False
+        s3.active = list(s2.active)
+        s3.chunks = [{chan: np.array([55, 66], dtype='i4')}]
+        data = M.encode_file([s1, s2, s3])[0]
+        from nptdms import TdmsFile
+        ctx.count('concat_ambiguity_files')
+        for mode in ('eager', 'lazy'):
+            tf = (TdmsFile.read if mode == 'eager' else TdmsFile.open)(io.BytesIO(data))
+            try:
+                ch = tf[q_][r_]
+                got = [ch[:].tolist(), ch.read_data(1, 3).tolist(), int(ch[4])]
+                if got != [[11, 22, 33, 44, 55, 66], [22, 33, 44], 55]:
+                    ctx.violation('objects-confused-across-segments/%s' % mode, {'groups': (p_, q_, r_), 'got': got})
+                if sorted(g.name for g in tf.groups()) != sorted({p_, q_, r_}):
+                    ctx.violation('objects-confused-across-segments/groups/%s' % mode, {'groups': (p_, q_, r_), 'got': [g.name for g in tf.groups()]})
+            except Exception as ex:
+                ctx.violation('objects-confused-across-segments/raises/%s/%s' % (mode, util.exc_key(ex)), {'groups': (p_, q_, r_)})
+            finally:
+                tf.close()
 
 
 def implied(ctx, pairs):
